@@ -20,7 +20,7 @@ RULE = ("comparison constraints on PCBO and PCSO, logic constraints, and to_qubo
 THEOREMS = "C16_constraint, C16_logic, C16_spin, C16_affine, C16_reduce_affine"
 MODELLED = "sympy arithmetic, subs and float conversion are outside the model (reached by the comparison only)"
 
-CVALS = [F(1), F(2), F(1, 2), F(7, 4), F(3), F(5, 2)]
+CVALS = [F(1), F(2), F(1, 2), F(7, 4), F(3), F(5, 2), F(1, 2 ** 60), F(1, 2 ** 60), F(1, 2 ** 100), F(2 ** 12 + 1, 2 ** 12), F(1, 2 ** 20)]      # exact doubles
 LASTWARN = [None]
 
 
@@ -37,6 +37,10 @@ def last_warn():
 def gen(rng, i, tier):
     fam = rng.choice(["c02", "c02", "c03", "c06", "c01"])
     c = rng.choice(CVALS)
+    if fam == "c01" and c < F(1, 2 ** 30):
+        # a reduction adds the penalty to coefficients of ordinary size: 1.3125 + 2**-60 is not a double. (The constraint
+        # families start from an empty model, where every coefficient is a multiple of the weight.)
+        c = F(1, 2 ** 20)
     if fam == "c02":
         case = c02.gen(rng, -1, tier)      # -1: without the slack ranges of 2**49 (the substituted weight is a float)
     elif fam == "c03":
